@@ -7,6 +7,33 @@ OPTS = {"methods": ["MS", "SS", "DC"], "deg_max": 4, "intgs": ["rk", "expl_euler
 OPTS_T = dict(OPTS, N_max=6, M_max=4)
 
 
+def build(rng, opts):
+    """default cases; one in four gets TWIN terms: integrals / sums of the same expression shape over two different
+    symbol objects of the same kind (rockit gives every state the name 'x', every control 'u': the printed forms of the
+    two integrands coincide, the integrands do not)"""
+    from ..cases import nslots
+    from .nlpprop import default_build
+    from .. import gen
+    c = default_build(rng, opts)
+    if rng.random() < 0.5 and not c.get("discrete"):
+        for kind, key in (("x", "states"), ("u", "controls")):
+            objs = c.get(key, [])
+            shp = lambda d: (d.get("rows", 1), d.get("cols", 1))
+            pairs = [(i, j) for i in range(len(objs)) for j in range(len(objs)) if i != j and shp(objs[i]) == shp(objs[j])]
+            if pairs:
+                firsts = [nslots(objs[:j]) for j in range(len(objs))]
+                a, b = rng.choice(pairs)
+                form = rng.choice(["sq", "lin"])
+                for j in (a, b):
+                    sym = ["s", kind, firsts[j]]
+                    e = ["*", sym, sym] if form == "sq" else ["*", gen.C(3), sym]
+                    c.setdefault("quad", []).append(e)
+                    c["objective"].append(["int", len(c["quad"]) - 1])
+                c["_twin"] = kind
+                break
+    return c
+
+
 def nontrivial(case, mrows):
     return len(case.get("objective", [])) > 0
 
@@ -67,11 +94,11 @@ class C05Prop(NlpProp):
         return dis, nontriv, dist, skipped
 
 
-P = C05Prop("C05", OPTS, OPTS_T, classify=classify, judge_kinds=[], judge_obj=True, nontrivial=nontrivial,
+P = C05Prop("C05", OPTS, OPTS_T, build=build, classify=classify, judge_kinds=[], judge_obj=True, nontrivial=nontrivial,
             extra=(engine.extras_objvalue, engine.extra_objvalue), extra_judge=extra_judge,
             rule="random OCPs with 1-4 objective terms drawn from at_t0, at_tf, integral, sum, sum(include_last), "
                  "integral(grid='control'), each optionally multiplied/added with global parameters, variables, T, t0 or "
-                 "squared; integrands/summands nonlinear in x,u,t,p,v (per-interval too); explicit quadrature states; "
+                 "squared; in a quarter of the cases two integral terms of the same printed form over two different state / control objects; integrands/summands nonlinear in x,u,t,p,v (per-interval too); explicit quadrature states; "
                  "x {MS,SS} x {rk,expl_euler} and DirectCollocation degree 1..4 radau|legendre x N,M x grids x fixed/free/parametric horizon; plus, for every (degree 1..5, scheme), integral(1) must equal T.  Compared: opti.f and "
                  "ocp.value(ocp.objective) against the model's objective at every decision point.  non-trivial = has "
                  "objective terms; distinct by hash of the case")
